@@ -95,6 +95,14 @@ CHECKS = [
          note='Trusted: vf/oracles/packref.py written from the docstring layout; codec run through the pyx transliterator. Pair '
               'orientation in cis/trans records and float16 truncation vs rounding are not fixed by the layout text; either accepted.',
          technique='round-trip + differential (independent reference codec) property-based testing; regression corpus of published packs'),
+    dict(id='C19',
+         text='Configuration sweep over fresh interpreter processes with six PYTHONHASHSEED values on a generated sample of molecules: '
+              'twelve derived values (canonical string, orderings, ring set, fingerprints, ordered match lists of 12 SMARTS, '
+              'canonicalize() result, pack bytes, ...) are each computed uncached, cached, on a copy and on a second fresh object '
+              'in the opposite order; all digests must agree within and across processes.',
+         note='Only hash-seed / process / cache-order dependence observable on this platform within six seeds is detectable; '
+              'hash(molecule) is excluded by the property text (string hash).',
+         technique='configuration-sweep property-based testing (metamorphic: same input, different process/hash seed/cache order)'),
     dict(id='C20',
          text='Generated molecules both toolkits accept (rebuilt with drawn numbering/insertion order, Kekule or aromatic, drawn 2D '
               'coordinates, mapping on/off) are pushed through to_rdkit_molecule / from_rdkit_molecule: per-atom payload (element, '
